@@ -398,3 +398,19 @@ PROPS["C18"] = dict(
     assumptions=["HAVE_ATOMIC_BUILTINS as configured by cmake for this tree; -DENABLE_THREADING=1 selects the __sync paths",
                  "a fault that needs one specific interleaving that is neither a data race nor likely under contention can be missed"],
 )
+
+# ---- oracles and entry points added while closing the seeded rounds 3-9 (DESIGN 10.8-10.14) ----
+_ADD = {
+    "C01": "; a sample of the valid texts also goes through json_object_from_fd / json_object_from_file on a memory file and on a pipe fed in small pieces",
+    "C03": "; the first document is also compared with ONE call on the whole text (same value; an early stop only where nothing but whitespace/comments follows)",
+    "C04": "; json_tokener_parse / json_tokener_parse_verbose must agree with one parse_ex(len=-1) call; thorough tier: one token fed past INT_MAX bytes",
+    "C05": "; also delete callbacks registered with a NULL cookie, the same node in several slots, objects grown past a resize with constant and duplicated keys",
+    "C06": "; the lh level also checks the entry free function (every entry handed over exactly once), the constant-key flag across resizes, lookup_entry_w_hash, lh_foreach/_safe with deletions and the kptr/kchar constructors; the visitor deletes the member it is shown; the entropy hook answers -1 and 0 before a seed; the hash selection is switched mid-history",
+    "C07": "; mode 'al' drives arraylist.h alone with a counting free function",
+    "C16": "; a strict tokener reused after json_tokener_reset, STRICT|VALIDATE_UTF8, json_tokener_parse_verbose and the descriptor entry points must give the same verdicts",
+    "C17": "; every tree is traversed a second time (CONTINUE everywhere) and must give the full reference traversal; wide nodes with more than 1100 SKIP/POP returns",
+    "C18": "; references are also held and released through thread-private containers, threads install their own double formats, one node carries more than 2^31 references, and the string-hash selection is switched and switched back in the seed trials",
+    "C20": "; reads also go through json_object_from_file on a real memory file whose read() calls are shortened / failed per script, and documents get byte-order-mark prefixes",
+}
+for _k, _v in _ADD.items():
+    PROPS[_k]["level_text"] += _v
